@@ -154,11 +154,6 @@ Definition times (n : nat) (d : Qc) : list Qc := map (fun k => (NtoQc k * d)%Qc)
 (* before fix D05: np.linspace(0, T, n, endpoint=False) = k * (T/n) (only used to state what the fix changed) *)
 Definition times_linspace (n : nat) (T : Qc) : list Qc := map (fun k => (NtoQc k * (T / NtoQc n))%Qc) (seq 0 n).
 
-(* Model switch for defect D35 (one stored sample and >= 2 output columns: ValueError from the DataFrame constructor).
-   false = the code as it is; true = the code with /verif/fixes/proposed_fix_C03_D35.diff applied (the unit axes are
-   squeezed, never the time axis).  harness/c03.py reads this line too. *)
-Definition fixed_D35 : bool := false.
-
 Definition pick (cols : list nat) (y : row) : row := map (fun j => nth j y 0%Qc) cols.
 
 (* DataFrame rows: time :: values of the requested columns;  results.loc[cutoff:, :] keeps index >= cutoff *)
@@ -168,8 +163,8 @@ Definition frame (cutoff : Qc) (ts : list Qc) (cols : list nat) (rec : list row)
 (* CircuitTemplate.run with solver euler/heun (t0 = 0: the compiled `t` starts at 0).
    dts = None: `dts = dt` (ComputeGraph.run) and `step = dts if dts else dt` (BaseBackend.run).
    ComputeGraph.run reads results[-1]: IndexError on an empty record.
-   A single row with >= 2 requested columns: np.squeeze makes every column 0-d, np.asarray(data).T is 1-D and the
-   DataFrame constructor raises ValueError. *)
+   Since fix D62 (`_squeeze_units`: unit axes are squeezed, never the time axis) a single stored row is returned as a
+   1-row frame whatever the number of columns (before: ValueError from the DataFrame constructor for >= 2 columns). *)
 Definition run_model {C} (f : C -> nat -> row -> row * C) (s : solver)
            (T dt : Qc) (dts : option Qc) (cutoff : Qc) (cols : list nat) (y0 : row) (c0 : C) : outcome :=
   let d := match dts with Some d => d | None => dt end in
@@ -177,7 +172,6 @@ Definition run_model {C} (f : C -> nat -> row -> row * C) (s : solver)
   match solve f s T dt d y0 c0 0 with
   | Rows rec =>
       if (n =? 0)%nat then ErrIndex
-      else if negb fixed_D35 && (n =? 1)%nat && (2 <=? length cols)%nat then ErrShape
       else Rows (frame cutoff (times n d) cols rec)
   | o => o
   end.
@@ -202,9 +196,8 @@ Definition rows_fit (T dt dts : Qc) : bool :=
 (* the property's quantifier: the sampling step is a positive integer multiple of the step *)
 Definition sampling_multiple (dt dts : Qc) : bool :=
   (1 <=? rnd (dts / dt))%nat && Qeq_bool (this (NtoQc (rnd (dts / dt)) * dt)%Qc) (this dts).
-(* at least one row, and (unless D35 is repaired) not (one row and several columns) *)
-Definition frame_ok (T d : Qc) (ncols : nat) : bool :=
-  (1 <=? rnd (T / d))%nat && (fixed_D35 || negb ((rnd (T / d) =? 1)%nat && (2 <=? ncols)%nat)).
+(* at least one stored sample (with none, ComputeGraph.run fails on results[-1]) *)
+Definition frame_ok (T d : Qc) : bool := (1 <=? rnd (T / d))%nat.
 
 (* ------------------------------------------------------------------------------------------------ *)
 (* a concrete family of right-hand sides for the correspondence run: affine in y, in the time argument and in
